@@ -11,13 +11,13 @@ import (
 	"github.com/foxboron/go-uefi/internal/vsym"
 )
 
-var vsymC11Name = 4  // symbolic letters in the variable name
+var vsymC11Name = 4   // symbolic letters in the variable name
 var vsymC11Value = 64 // value length bound
 
 type vValue []byte
 
 func (v vValue) Marshal(b *bytes.Buffer) { b.Write(v) }
-func (v vValue) Bytes() []byte            { return v }
+func (v vValue) Bytes() []byte           { return v }
 
 type vSink struct {
 	called bool
